@@ -1,6 +1,7 @@
 """C01 (explicit returns; if / else-if / else chains): Parser::{return_, if_}, extracted as they are.  An if statement is (the expression after
 the keyword, the block after it, and — only when an `else` follows — either the block after `else {` or the whole if statement after `else if`),
-in that order of the source; anything else after `else` is a diagnostic.  A return outside every function is a diagnostic; `return;` is a return without a
+in that order of the source; anything else after `else` is a diagnostic.  A let declaration is (the identifier after the keyword, an optional `: type`, an optional
+`= expression`, the semicolon): without `=` it has NO value (the compiler stores nil), with one the expression parsed after it.  A return outside every function is a diagnostic; `return;` is a return without a
 value (also in an initialiser, which answers its instance); `return e;` returns the expression parsed after the keyword — in an initialiser it is
 a diagnostic; the semicolon is demanded.  expr / match_kind / consume_basic / error are stubs."""
 UNIT = dict(
@@ -8,7 +9,7 @@ UNIT = dict(
   properties=['C01'],
   items=[
     ('laythe_core/src/object/fun.rs', ['enum FunKind']),
-    ('laythe_vm/src/compiler/parser.rs', [("impl<'a> Parser<'a>", ['return_', 'if_'])]),
+    ('laythe_vm/src/compiler/parser.rs', [("impl<'a> Parser<'a>", ['return_', 'if_', 'let_'])]),
   ],
   rewrites=[
     ('R11', 'enum FunKind', dict(drop=['Debug'], add=['Structural'])),
@@ -18,6 +19,10 @@ UNIT = dict(
     # R4: Result::map with a closure over self -> match
     ('R4', 'Parser::return_', dict(pat=r'(?s)let result = self\s*\.consume_basic\((.*?)\)\s*\.map\(\|\(\)\| (.*?)\);\n',
       rep=r'let result = match self.consume_basic(\1) { Ok(()) => Ok(\2), Err(verif_e) => Err(verif_e) };\n', regex=True, count=1)),
+    # let_: Option::replace on a field and a Result::map closure
+    ('R6', 'Parser::let_', dict(pat='self.let_name.replace(name.clone())', rep='self.verif_replace_let_name(name.clone())', count=1)),
+    ('R4', 'Parser::let_', dict(pat=r'(?s)self\s*\.consume_basic\(\s*TokenKind::Semicolon,\s*("[^"]*"),?\s*\)\s*\.map\(\|\(\)\| (.*?)\)\s*\}\s*$',
+      rep=r'match self.consume_basic(TokenKind::Semicolon, \1) { Ok(()) => Ok(\2), Err(verif_e) => Err(verif_e) }\n  }\n', regex=True, count=1)),
     ('R3', 'Parser::if_', dict(pat='unreachable!()', rep='verif_unreachable()', count=1)),
   ],
   assumption_ids=['A-parser'],
